@@ -27,6 +27,85 @@ class DictGen(randschema.Gen):
         return super().texpr(scope, depth, guarded)
 
 
+class Tl1Enc:
+    """small TL1 writer over the kernel dump, used ONLY to place structure-aware mutations (its unmutated output is
+    checked against the model's encoder before use).  site = ('s'|'b', k): the k-th string / Bool written;
+    mode: pad (non-zero padding byte), medium / huge (non-minimal length form), lenplus (length byte + 1), badtag."""
+
+    def __init__(self, ins, site=None, mode=None, rng=None):
+        self.ins, self.site, self.mode, self.rng = ins, site, mode, rng
+        self.nstr = self.nbool = 0
+        self.empty_strs = []
+
+    @staticmethod
+    def le(n, k):
+        return int(n).to_bytes(k, "little")
+
+    def string(self, b):
+        k = self.nstr
+        self.nstr += 1
+        if not b:
+            self.empty_strs.append(k)
+        mode = self.mode if self.site == ("s", k) else None
+        l = len(b)
+        if mode == "pad" and (l + 1) % 4 == 0 and l < 254:
+            mode = "medium"      # no padding byte to spoil
+        if mode == "huge":
+            hdr, p = b"\xff" + self.le(l, 7), l
+        elif mode == "medium" or l >= 254:
+            hdr, p = b"\xfe" + self.le(l, 3), l
+        elif mode == "lenplus":
+            hdr, p = bytes([min(l + 1, 253)]), l + 1
+        else:
+            hdr, p = bytes([l]), l + 1
+        pad = bytearray((-p) % 4)
+        if mode == "pad" and pad:
+            pad[self.rng.randrange(len(pad))] = self.rng.choice([1, 1, 0x80, 0xff])
+        return hdr + b + bytes(pad)
+
+    def value(self, tid, v, bare):
+        x = self.ins[tid]
+        k = x["kind"]
+        if k == "prim":
+            p = PRIM_MAP.get(x["name"], "notl1")
+            if p in ("nat", "int", "float"):
+                return self.le(v[1], 4)
+            if p in ("long", "double"):
+                return self.le(v[1], 8)
+            if p == "string":
+                return self.string(v[1])
+            if p == "bool":
+                i = self.nbool
+                self.nbool += 1
+                tag = x["trueTag"] if v[1] else x["falseTag"]
+                if self.site == ("b", i):
+                    tag = self.rng.choice([tag ^ 1, 0, 0xffffffff, x["trueTag"] ^ x["falseTag"]])
+                return self.le(tag, 4)
+            raise ValueError("not TL1")
+        if k == "struct":
+            return (b"" if bare else self.le(x["tag"], 4)) + self.fields(x, v[1])
+        if k == "union":
+            var = self.ins[x["variants"][v[1]]]
+            return self.le(var["tag"], 4) + self.fields(var, v[2])
+        if k in ("array", "dict"):
+            ef = x["elem"]
+            out = b"" if (k == "array" and x.get("isTuple")) else self.le(len(v[1]), 4)
+            for e in v[1]:
+                out += self.value(ef["type"], e, ef["bare"])
+            return out
+        raise ValueError(k)
+
+    def fields(self, x, fs):
+        out = b""
+        for f, fv in zip(x["fields"], fs):
+            if fv is not None:
+                out += self.value(f["type"], fv, f["bare"])
+        return out
+
+    def top(self, tid, v):
+        return self.value(tid, v, False)
+
+
 class AsciiGen(ValueGen):
     """mostly printable strings, so that the JSON form can be read back (non-UTF-8 strings in JSON are C05's subject)"""
 
@@ -115,7 +194,7 @@ def run(ctx):
         tops = [t for t in toplevel_objects(ins) if t[1] in names]
         san = "1" if u.san else "0"
         sg, ug = AsciiGen(ins, rng), UnsortedGen(ins, rng)
-        enc_lines, kinds = [], []
+        enc_lines, kinds, vals = [], [], []
         for tid, name, x in tops:
             for k in range(nvals):
                 g, op, kind = (sg, "enc", "sorted") if k % 2 == 0 else (ug, "encb", "unsorted")
@@ -127,6 +206,7 @@ def run(ctx):
                     break
                 enc_lines.append(f"{op} {san} {tid} {name} 1 | {vtext(v)}")
                 kinds.append(kind)
+                vals.append(v)
         if not enc_lines:
             fam.add(schemas_without_bytes_items=1)
             return
@@ -136,11 +216,14 @@ def run(ctx):
                 fam.unit_errors.append((u.name, f"model driver failed on enc: rc={rc} {err[-300:]}"))
             return
         lines, lk = [], []
-        for l, o, k in zip(enc_lines, eo, kinds):
+        valid = []     # (tid, name, value, hex) of sorted duplicate-free inputs: seeds of the mutated stream
+        for l, o, k, v in zip(enc_lines, eo, kinds, vals):
             if o.startswith("ok "):
                 f = l.split(" ")
                 lines.append(f"brw {san} {f[2]} {f[3]} {o[3:]}")
                 lk.append(k)
+                if k == "sorted":
+                    valid.append((int(f[2]), f[3], v, o[3:]))
             else:
                 fam.add(model_enc_none=1)
         rc1, mo, e1 = fam.model(u, lines)
@@ -229,6 +312,68 @@ def run(ctx):
                     what = {"rt": "a fresh object does not reproduce the content", "reuse": "an object that held other content before reads differently from a fresh object",
                             "reset": "an object that was Reset() reads differently from a fresh object"}.get(c, c)
                     fam.oracle_fail(u, f"C10:reuse:{u.name}:{name}:{vf}", f"{name} {vf}: {what}", data)
+        # ---- mutated inputs (model-free): both variants must give the same verdict, consume the same bytes and, on
+        # accept, re-encode the same (modulo sort + dedup of dictionaries)
+        tags = sorted({x["tag"] for x in ins if x.get("tag")})
+        ml = []      # (op line, kind)
+        for tid, name, v, hx_ in valid:
+            base = Tl1Enc(ins)
+            try:
+                plain = base.top(tid, v)
+            except Exception:   # noqa: a construct the small encoder does not know
+                fam.add(mutation_encoder_skips=1)
+                plain = None
+            if plain is not None and plain.hex() != hx_:
+                fam.add(mutation_encoder_disagrees_with_model=1)
+                plain = None
+            if plain is not None:
+                sites = [("s", i) for i in range(base.nstr)] + [("b", i) for i in range(base.nbool)]
+                rng.shuffle(sites)
+                empties = [("s", i) for i in base.empty_strs]
+                for site in (empties[:1] + sites)[:3]:
+                    mode = rng.choice(["pad", "pad", "medium", "huge", "lenplus"]) if site[0] == "s" else "badtag"
+                    if site in empties and rng.random() < 0.7:
+                        mode = "pad"
+                    m = Tl1Enc(ins, site=site, mode=mode, rng=rng).top(tid, v)
+                    if m != plain:
+                        ml.append((f"bmut t1 {name} {m.hex()}", "mut-" + ("string-" + mode if site[0] == "s" else "bool-tag")))
+            raw = bytes.fromhex(hx_)
+            for _ in range(2 if u.san else 0):   # without --checkLengthSanity a mutated count word makes the reader allocate gigabytes (by design)
+                ml.append((f"bmut t1 {name} {mutate_bytes(rng, raw, tags).hex() or '-'}", "mut-random-tl1"))
+        # TL2 inputs: what the string variant writes for the valid contents, mutated
+        t2src = [f"btl2 {name} {hx_}" for tid, name, v, hx_ in valid]
+        t2o = run_lines_resilient(u.gen.exe, [], t2src, timeout=600)
+        for l, o in zip(t2src, t2o):
+            if o.startswith("ok "):
+                raw = b"" if o[3:] == "-" else bytes.fromhex(o[3:])
+                name = l.split(" ")[1]
+                ml.append((f"bmut t2 {name} {raw.hex() or '-'}", "tl2-valid"))
+                for _ in range(2):
+                    ml.append((f"bmut t2 {name} {mutate_bytes(rng, raw, tags).hex() or '-'}", "mut-random-tl2"))
+        mo_ = run_lines_resilient(u.gen.exe, [], [x[0] for x in ml], timeout=600)
+        fam.add(evaluations=len(ml), mutated_inputs=len(ml))
+        acc = rej = 0
+        for (l, kind), o in zip(ml, mo_):
+            fam.kind(kind)
+            name = l.split(" ")[2]
+            if not o.startswith("s="):
+                if o.startswith(("crash", "panic")) and not Family.not_ours("", o):
+                    fam.oracle_fail(u, f"C10:mutated-input-crash:{u.name}:{name}", f"{kind}: {o[:140]}", {"op": l, "go": o})
+                continue
+            d = dict(p.split("=", 1) for p in o.split(" "))
+            data = {"op": l, "go": o, "kind": kind, "unit": u.name, "options": u.options}
+            if d["s"] != d["b"]:
+                fam.oracle_fail(u, f"C10:accept-differs:{u.name}:{name}",
+                                f"{name}: {kind} input {trunc(l.split(' ')[3], 80)} ({l.split(' ')[1]}): string variant {d['s']}, bytes variant {d['b']}", data)
+            elif d["s"].startswith("ok"):
+                acc += 1
+                with fam.lock:
+                    fam.distinct.add(hash((u.name, l)))
+                if d.get("enc") not in ("same", "norm", "writeerr:true/true"):    # both refusing to write TL1 (size field vs array length) is agreement
+                    fam.oracle_fail(u, f"C10:accept-differs:{u.name}:{name}", f"{name}: both variants accept the {kind} input but re-encode differently: {d.get('enc')}", data)
+            else:
+                rej += 1
+        fam.add(mutated_accepted_by_both=acc, mutated_rejected_by_both=rej)
 
     fam.run_units(work)
     fam.report(
@@ -236,7 +381,11 @@ def run(ctx):
         "per schema generated with --generateByteVersions: for EVERY registry item whose CreateObjectBytes() is a different Go type: boxed TL1 inputs "
         "(type-directed values; dictionaries sorted and duplicate-free, or shuffled with repeated keys) are read by both variants and re-encoded: TL1 of both variants "
         "compared with the model (map-backed: sort + last-wins; slice-backed: order preserved); Go-side: the string variant's output re-read by the bytes variant must "
-        "give identical TL1 / JSON / TL2, the string variant's JSON read by both variants must give identical TL1 / JSON / TL2, and for sorted inputs both variants agree directly",
+        "give identical TL1 / JSON / TL2, the string variant's JSON read by both variants must give identical TL1 / JSON / TL2, and for sorted inputs both variants agree directly; "
+        "reused objects: content B read (TL1 / JSON / TL2) into a fresh object, an object that held A, and one that held A and was Reset() must agree, per variant; "
+        "mutated inputs: structure-aware TL1 mutations (non-zero padding incl. on empty strings and dictionary keys, non-minimal medium / huge length forms, length+1, bad Bool tags), "
+        "random byte mutations of TL1 (units with the length-sanity check only) and of TL2 encodings: both variants must give the same verdict and consumed length and, "
+        "when both accept, the same re-encodings (modulo sort + dedup)",
         extra_cov={"items_with_bytes_variant": {k: v[:80] for k, v in sorted(bytes_items.items())},
                    "skipped_constructs": {k: sorted(set(v))[:40] for k, v in skipped.items()} or "none",
                    "not_modelled": ["JSON and TL2 text/bytes (compared Go-vs-Go between the variants, not with the model)",
